@@ -4,11 +4,13 @@ HERE = os.path.dirname(os.path.dirname(os.path.abspath(__file__)))
 import importlib, sys
 sys.path.insert(0, os.path.join(HERE, "tools"))
 CLAIMED = {}
+TARGETS = ["ScoresVerif.Driver.Loop"]
 for fn in sorted(os.listdir(os.path.join(HERE, "tools", "sv", "props"))):
     if fn.startswith("c") and fn.endswith(".py"):
         m = importlib.import_module("sv.props." + fn[:-3])
         if getattr(m, "MANIFEST", None):
             CLAIMED[m.PROPERTY] = m.MANIFEST
+            TARGETS += [p[:-5].replace("/", ".") for p in getattr(m, "PROPS", [])] + list(getattr(m, "DRIVER_DEPS", []))
 REASON_PENDING = "check not built yet in this session; the property is within reach of the technique (see DESIGN.md section 6) and will be claimed when its model, theorems and correspondence exist"
 def main():
     props = [json.loads(l)["id"] for l in open(os.path.join(HERE, "properties.jsonl"))]
@@ -29,7 +31,7 @@ def main():
         })
     m = {
         "version": 1,
-        "setup_cmd": "/venv/bin/python tools/translate.py all >/dev/null && /venv/bin/python tools/mkroot.py && cd lean && lake build",
+        "setup_cmd": "bash tools/setup.sh",
         "hooks": {"guard": "NCI_SCORES_VERIF", "enable": "no hooks are needed: every observation point is a return value or exception of a public or module-level function",
                   "baseline_off_cmd": "cd /repo && /venv/bin/python -m pytest -ra -q -p no:cacheprovider --timeout=900 --continue-on-collection-errors",
                   "source_commits": [], "add_only": True},
@@ -40,4 +42,5 @@ def main():
         "not_applicable": [{"property_id": p, "reason": REASON_PENDING} for p in props if p not in CLAIMED],
     }
     json.dump(m, open(os.path.join(HERE, "MANIFEST.json"), "w"), indent=1)
+    open(os.path.join(HERE, "tools", "targets.txt"), "w").write("\n".join(dict.fromkeys(TARGETS)) + "\n")
 main()
